@@ -249,3 +249,19 @@ Definition trc_inside (v h : pt) (r1 r2 : R) (p : pt) : Prop :=
 Definition rec_inside (v h a1 a2 : pt) (p : pt) : Prop :=
   exists t x y : R, 0 < t < 1 /\ x * x + y * y < 1 /\
     p = vadd v (vadd (vmul t h) (vadd (vmul x a1) (vmul y a2))).
+
+(* BOX for ANY parallelepiped (the code's own claim; MCNP wants a right one):
+   coordinates of p - v in the basis (a1, a2, a3) by Cramer's rule; facet 1 is
+   s1 = 1 (the face at the END of a1, spanned by a2 and a3), facet 2 is s1 = 0,
+   and so on, outward positive *)
+Definition para_coord (v a1 a2 a3 : pt) (i : nat) (p : pt) : R :=
+  let q := vsub p v in
+  match i with
+  | O => det q a2 a3 / det a1 a2 a3
+  | S O => det a1 q a3 / det a1 a2 a3
+  | _ => det a1 a2 q / det a1 a2 a3
+  end.
+Definition para_facets (v a1 a2 a3 : pt) : list (pt -> R) :=
+  [ (fun p => para_coord v a1 a2 a3 0 p - 1); (fun p => - para_coord v a1 a2 a3 0 p);
+    (fun p => para_coord v a1 a2 a3 1 p - 1); (fun p => - para_coord v a1 a2 a3 1 p);
+    (fun p => para_coord v a1 a2 a3 2 p - 1); (fun p => - para_coord v a1 a2 a3 2 p) ].
